@@ -9,9 +9,55 @@ DIST = "metrics-exporter-prometheus/src/distribution.rs"
 PLAN = {
     "property": "C15",
     "level": "proof",
-    "manifest": {"technique": "TBD", "text": "TBD", "note": "TBD"},
-    "min_obligations": {"quick": 1, "thorough": 1},
-    "assumptions": [],
+    "manifest": {
+        "technique": "Kani/CBMC function contracts on the real Histogram (arbitrary symbolic pre-state), Matcher, DistributionBuilder, "
+                     "RollingSummary (first sample) and Distribution::record_samples; Verus spec-level lemma for first-fit + prefix-sum == per-bound counting",
+        "text": "Histogram::record and record_many are checked against per-call contracts over an ARBITRARY pre-state (symbolic bounds, per-bound counts, "
+                "count) and every f64 sample incl. NaN/inf/-0: buckets'[i] == buckets[i] + #{s <= bounds[i]}, count' == count + |S|, cumulative order and "
+                "last <= count (+Inf) preserved for ascending bounds; 'after any sequence / any batching' follows by induction over calls, and is also "
+                "checked directly on bounded sequences and splits. The Verus lemma proves, for any number of bounds and samples, that record_many's "
+                "algorithm (first matching bound, then prefix sums) equals per-bound counting exactly when bounds ascend. On the exporter side: Matcher "
+                "semantics and order Full < Prefix < Suffix, DistributionBuilder's choice (full, prefix, suffix, global, else summary) and type string, "
+                "RollingSummary new/first add/snapshot window cut for every pair of instants, record_samples(histogram) == record_many.",
+        "note": "All Kani harnesses that touch a vector are bounded in its length (<= 4 bounds, batches <= 3). Not machine-checked (tool limits, see "
+                "assumptions): DistributionBuilder::new's collect+sort, RollingSummary with more than one bucket (in-bucket add, expiry, alignment, "
+                "truncate/insert, multi-bucket merge), record_samples' summary arm, sanitisation of names/matchers, DDSketch quantile accuracy.",
+    },
+    "min_obligations": {"quick": 10, "thorough": 10},
+    "assumptions": [
+        "vector lengths are bounded in every Kani harness (<= 4 bucket bounds, batches <= 3, sequences <= 3 operations); bounds, counts, count, sum and "
+        "samples are unrestricted f64/u64 (no u64 counter overflow: < 2^64 - 3 samples)",
+        "ascending bounds = bounds[i] <= bounds[i+1] in IEEE order (no NaN bound); record's per-bucket clause is proved for ANY bounds, record_many's needs ascending",
+        "sum(): record adds the sample, record_many adds the batch total computed first ((0 + s1) + s2 ...); recording singly vs. in batches therefore "
+        "gives bit-identical buckets and count but the f64 sum may differ in the last bits (floating-point addition is not associative) -- the "
+        "'identical results' clause is checked for buckets and count only; noted, not reported as a violation",
+        "+Inf bucket: the renderer prints it from Histogram::count(); checked here as count == number of samples and last finite bucket <= count",
+        "DistributionBuilder::new is NOT executed (HashMap cannot run under Kani; std's slice sort ran CBMC out of memory): lines 97-101 of distribution.rs "
+        "(collect + sort_by(|a,b| a.0.cmp(&b.0))) are covered by inspection only; the harness writes the override vector in sorted order, checks that order "
+        "with the real Matcher::cmp, and assumes std's sort sorts",
+        "builder harnesses run 16 concrete configurations ({global} x {overrides} x 4 names against Full(ab), Prefix(a), Suffix(b)); the chosen override is "
+        "identified by giving every other candidate an empty bucket list (new_histogram then panics); several matching overrides of the same kind (the "
+        "lexicographically first wins) are not exercised",
+        "Matcher semantics are checked on 8 literal strings of <= 4 bytes (no symbolic String under Kani); sanitisation (Matcher::sanitized, "
+        "sanitize_metric_name: 'names before/after sanitisation') is NOT checked here",
+        "RollingSummary: only new(), the first add and a later snapshot are machine-checked (for every pair of instants < 2^60 ns, durations 7 ns / 20 s, "
+        "1..3 buckets, values 0, 1e-10, -5e-10, +inf). Any Summary::add or retain/insert/truncate on a bucket already stored in the Vec makes CBMC explore "
+        "DDSketch's logarithmic store (measured: > 15 min / > 15 GB for two adds even with concrete instants), so lines 200-212 (in-bucket add), 215-217 "
+        "(expiry), 229-246 (grid alignment, truncate, insert) and the multi-bucket merge in snapshot are covered by the repository's unit tests only",
+        "window granularity: snapshot keeps a bucket iff its begin is younger than count*duration; a sample younger than the window but filed in a bucket "
+        "that began earlier is dropped with its bucket (up to one duration early). The statement's 'within the rolling window' is read with that "
+        "bucket granularity; with a single expired bucket the rendered quantile is 0 although a sample younger than count*duration exists",
+        "Summary wraps sketches-ddsketch: its constructor's log1p/ln calls are stubbed by a deterministic dummy (unsupported / nondeterministic in CBMC) and "
+        "samples are taken from the sketch's exact zero bucket (|v| <= 1e-9) or infinite, so Summary::count() is the real exact count; quantile values "
+        "'up to the sketch's relative error' and min/max are the dependency's contract and are NOT decided",
+        "quanta::Instant values are fabricated by transmuting u64 nanoseconds (newtype over u64, no public constructor); times < 2^60 ns so Instant + Duration cannot overflow",
+        "record_samples: histogram arm checked against Histogram::record_many for <= 2 samples; the summary arm (3-line loop: add, sum +=) is not machine-checked",
+        "values are forgotten (mem::forget) instead of dropped in the exporter harnesses (drop glue of nested vectors dominates CBMC time); panic = failure",
+    ],
+    "verus": [
+        # spec-level, unbounded in the number of bounds and samples: prefix sums of first-fit counts == per-bound counts for ascending bounds
+        {"template": "prefix.verus.rs", "tier": "quick", "rlimit": 40, "min_functions": 3},
+    ],
     "kani": [{
         "crate": "metrics-util",
         "parallel": 4,
@@ -56,8 +102,23 @@ PLAN = {
             {"item": "RollingSummary::{new,add,snapshot,count,is_empty}", "file": DIST},
         ],
         "harnesses": [
-            H("c15_matcher_matches", "Full = equality, Prefix = starts_with, Suffix = ends_with against a byte-level spec", kind="bounded",
-              bound="pattern and name from 8 literals of <= 4 bytes", covers=4, tier="thorough"),
+            H("c15_matcher_order", "derived Ord: every Full < every Prefix < every Suffix; equal kind => ordered by pattern, equal iff same pattern",
+              kind="bounded", bound="patterns from 8 literals of <= 4 bytes", covers=2),
+            H("c15_matcher_matches", "Full = equality, Prefix = starts_with, Suffix = ends_with against a byte-level spec",
+              kind="bounded", bound="pattern and name from 8 literals of <= 4 bytes", covers=4, tier="thorough"),
+            H("c15_builder_plain", "no overrides, no global buckets: every name is a summary (default 3 x 20 s), type \"summary\"",
+              kind="bounded", bound="4 concrete names", replay=True),
+            H("c15_builder_global", "global buckets only: every name is a histogram with the global buckets, type \"histogram\"",
+              kind="bounded", bound="4 concrete names", replay=True),
+            H("c15_builder_overrides", "overrides {Full ab, Prefix a, Suffix b}, no global: ab -> Full's buckets, a -> Prefix's, bb -> Suffix's, x -> summary; type matches",
+              kind="bounded", bound="1 override set x 4 concrete names", replay=True, timeout=900),
+            H("c15_builder_overrides_global", "same overrides with global buckets: an applicable override beats the global buckets; x -> global buckets; type \"histogram\"",
+              kind="bounded", bound="1 override set x 4 concrete names", replay=True, timeout=900),
+            H("c15_rolling_first_sample", "new: empty, snapshot has no quantile; first add: count 1 for every value, one bucket at t1; snapshot(t2) holds the sample iff "
+              "t2 - t1 < count*duration; count untouched -- for all instants t1 <= t2",
+              kind="bounded", bound="1 sample; count in 1..3, duration in {7 ns, 20 s}, 4 sample values; instants unrestricted (< 2^60 ns)", covers=4, timeout=900),
+            H("c15_record_samples_histogram", "record_samples on a histogram distribution == Histogram::record_many of the values (timestamps ignored)",
+              kind="bounded", bound="<= 2 samples, 2 bounds", covers=3, tier="thorough", timeout=900),
         ],
     }],
 }
